@@ -364,7 +364,16 @@ namespace c18
       }
 
       // ---- random coarse vector
-      std::vector<double> v(ncd); for(auto& x : v) x = c.rng.real(-1.0, 1.0);
+      // (dense, or locally supported: coarse cells on which the vector vanishes completely must still contribute their
+      //  weights / zero values to the matrix-free prolongation)
+      std::vector<double> v(ncd, 0.0);
+      {
+        const int style = int(c.rng.below(20));
+        if(style < 10) { for(auto& x : v) x = c.rng.real(-1.0, 1.0); c.tag("cvec:dense"); }
+        else if(style < 13) { if(ncd > 0) v[c.rng.below(ncd)] = c.rng.real(0.5, 1.0); c.tag("cvec:nodal_basis"); }
+        else if(style < 15) { c.tag("cvec:zero"); }
+        else { for(auto& x : v) if(c.rng.coin(0.2)) x = c.rng.real(-1.0, 1.0); c.tag("cvec:sparse"); }
+      }
       std::vector<LD> Pv, SPv; p.rP.apply(v, Pv, &SPv);
       std::vector<double> Pvd(nf); for(Index i = 0; i < nf; ++i) Pvd[i] = double(Pv[i]);
 
